@@ -905,3 +905,18 @@ pub fn parse_tls_message_handshake(i: &[u8]) -> IResult<&[u8], TlsMessage> {
     }?;
     Ok((i, TlsMessage::Handshake(msg)))
 }
+
+// crate-private parsers exposed to the verification harnesses (compiled only by `cargo kani`)
+#[cfg(kani)]
+pub(crate) mod verif_access {
+    use super::*;
+    pub(crate) fn certs(i: &[u8]) -> IResult<&[u8], Vec<RawCertificate>> {
+        parse_certs(i)
+    }
+    pub(crate) fn certrequest_nosigalg(i: &[u8]) -> IResult<&[u8], TlsCertificateRequestContents> {
+        parse_certrequest_nosigalg(i)
+    }
+    pub(crate) fn certrequest_full(i: &[u8]) -> IResult<&[u8], TlsCertificateRequestContents> {
+        parse_certrequest_full(i)
+    }
+}
